@@ -57,10 +57,25 @@ type cfg struct {
 	resp2    bool
 	step     string // "" or the setup step made to fail
 	later    bool   // the step fails only on connections after the first one
+	// transient mode (nth > 0): the step is answered with a server-state error (terr: LOADING, BUSY, MASTERDOWN - an
+	// error that says nothing about the command) exactly once, the nth time any data-node connection tries it; every
+	// other try, in particular the same step in a second setup sequence on the same connection, is answered normally
+	nth  int
+	terr string
+}
+
+var transientErrs = map[string]string{
+	"LOADING":    "LOADING Redis is loading the dataset in memory",
+	"BUSY":       "BUSY Redis is busy running a script. You can only call SCRIPT KILL or SHUTDOWN NOSAVE.",
+	"MASTERDOWN": "MASTERDOWN Link with MASTER is down and replica-serve-stale-data is set to 'no'.",
 }
 
 func (c cfg) String() string {
-	return fmt.Sprintf("kind=%s server=%s auth=%s opendefault=%v name=%v db=%d tracking=%s notouch=%v noevict=%v setinfo=%s resp2=%v step=%q later=%v", c.kind, c.server, c.auth, c.openDef, c.name, c.db, c.tracking, c.noTouch, c.noEvict, c.setInfo, c.resp2, c.step, c.later)
+	s := fmt.Sprintf("kind=%s server=%s auth=%s opendefault=%v name=%v db=%d tracking=%s notouch=%v noevict=%v setinfo=%s resp2=%v step=%q later=%v", c.kind, c.server, c.auth, c.openDef, c.name, c.db, c.tracking, c.noTouch, c.noEvict, c.setInfo, c.resp2, c.step, c.later)
+	if c.nth > 0 {
+		s += fmt.Sprintf(" transient=%s(try %d only)", c.terr, c.nth)
+	}
+	return s
 }
 
 func (c cfg) cluster() bool  { return strings.HasPrefix(c.kind, "cluster") }
@@ -444,7 +459,12 @@ func (w *world) body() {
 	}()
 
 	// the failing step: an error reply to that setup command on the data nodes
-	if c.step != "" {
+	if c.step != "" && c.nth > 0 {
+		e := resp.Err(transientErrs[c.terr])
+		s.Plan(&fakeredis.Rule{Name: "transient-step", Skip: c.nth - 1, Times: 1, Match: func(cn *fakeredis.Conn, a []string) bool {
+			return cn.NodeAddr() != aS && isSetupName(a) && stepOf(a) == c.step
+		}, Action: fakeredis.Action{Reply: &e}})
+	} else if c.step != "" {
 		e := resp.Err("ERR injected failure of " + c.step)
 		skip := 0
 		if c.later {
@@ -537,6 +557,8 @@ type connFacts struct {
 	injected   map[string]bool // steps that got the injected failure
 	everErr    map[string]bool // steps that were answered with an error at least once
 	helloNoCmd bool            // HELLO 3 was answered "unknown command"
+	transient  map[string]bool // steps that got the transient error (once)
+	transHello int             // protocol version of the HELLO that got the transient error (0: none)
 	userCmds   int
 	firstUser  int // index in setup order at which the first user command arrived (len(setup) at that time)
 }
@@ -546,7 +568,7 @@ func (w *world) facts(log []fakeredis.Event) map[int64]*connFacts {
 	get := func(e fakeredis.Event) *connFacts {
 		f := out[e.Conn]
 		if f == nil {
-			f = &connFacts{node: e.Node, errors: map[string]string{}, injected: map[string]bool{}, everErr: map[string]bool{}, firstUser: -1}
+			f = &connFacts{node: e.Node, errors: map[string]string{}, injected: map[string]bool{}, everErr: map[string]bool{}, transient: map[string]bool{}, firstUser: -1}
 			out[e.Conn] = f
 		}
 		return f
@@ -569,6 +591,13 @@ func (w *world) facts(log []fakeredis.Event) map[int64]*connFacts {
 		case "fault":
 			if e.Note == "fail-step" {
 				get(e).injected[stepOf(e.Argv)] = true
+			}
+			if e.Note == "transient-step" {
+				f := get(e)
+				f.transient[stepOf(e.Argv)] = true
+				if stepOf(e.Argv) == "HELLO" && len(e.Argv) > 1 {
+					f.transHello, _ = strconv.Atoi(e.Argv[1])
+				}
 			}
 		case "reply":
 			if isSetupName(e.Argv) {
@@ -594,6 +623,9 @@ func (w *world) check(log []fakeredis.Event) {
 	run, c := w.run, w.c
 	facts := w.facts(log)
 	keyBase := fmt.Sprintf("%s|server=%s|step=%s", c.kind, c.server, c.step)
+	if c.nth > 0 {
+		keyBase += "|transient=" + c.terr
+	}
 
 	// ---- 1. every user command that reached a server: the session it met
 	for _, in := range w.inspected {
@@ -618,6 +650,16 @@ func (w *world) check(log []fakeredis.Event) {
 			// errors of the RESP3 attempt on a server without HELLO are repeated in the RESP2 sequence: what counts is
 			// whether the step failed the last time it was tried - decided below through the session record
 			run.Violation("user-command-after-failed-step", keyBase+"|failed="+st, wit(map[string]any{"failed_step": st, "reply": msg}))
+		}
+		// the same for a step that failed and was tried again on the same connection with success: only a server that
+		// rejects HELLO as an unknown command gives the client a reason to run a second setup sequence
+		if !f.helloNoCmd {
+			for st := range f.everErr {
+				if _, still := f.errors[st]; still || tolerated(st) {
+					continue
+				}
+				run.Violation("user-command-after-failed-step", keyBase+"|failed="+st+"|then-retried", wit(map[string]any{"failed_step": st, "hello_rejected_as_unknown_command": false}))
+			}
 		}
 		wantProto := 3
 		if c.resp2 || c.server == "nohello" {
@@ -790,6 +832,28 @@ func (w *world) check(log []fakeredis.Event) {
 		}
 	}
 
+	// ---- 2c. what became of the connections that met the transient error
+	for _, f := range facts {
+		for st := range f.transient {
+			run.Observe("transient_step_errors_injected", 1)
+			switch {
+			case tolerated(st):
+				run.Observe("transient_errors_on_tolerated_steps", 1)
+			case f.userCmds == 0:
+				run.Observe("connections_refused_after_transient_step_error", 1)
+			case f.helloNoCmd:
+				run.Observe("connections_serving_after_transient_error_in_the_attempt_rejected_by_a_server_without_hello", 1)
+			}
+			if st == "HELLO" && f.transHello == 3 {
+				run.Observe("transient_errors_on_hello3", 1)
+				if c.disableCache() && c.server != "nohello" {
+					// nothing but the error itself stands between this connection and a working RESP2 session
+					run.Observe("transient_errors_on_hello3_where_a_resp2_session_would_work", 1)
+				}
+			}
+		}
+	}
+
 	// ---- 3. sentinel connections: sentinel credentials, sentinel client name, db 0
 	if c.sentinel() && w.newErr == nil {
 		n := 0
@@ -937,11 +1001,29 @@ func genCfg(r, rx *rand.Rand, i int) cfg {
 	return c
 }
 
+// genTransient turns a generated configuration into one of the transient mode: one of the steps it sends (half of the
+// time HELLO, the step that decides between the RESP3 and the RESP2 sequence) meets a server-state error exactly once.
+func genTransient(c cfg, rt *rand.Rand) cfg {
+	c.later = false
+	c.terr = pick(rt, "LOADING", "BUSY", "MASTERDOWN")
+	c.nth = 1 + rt.Intn(3)
+	if rt.Intn(2) == 0 {
+		c.tracking = "off" // a RESP2 session is refused (ErrNoCache) unless the cache is disabled
+	}
+	c.step = "HELLO"
+	if rt.Intn(2) == 0 {
+		r3, r2 := c.setupCmds(aP1, c.readonlyConn(aP1) || c.readonlyConn(aR1))
+		all := append(append([]string{}, r3...), r2...)
+		c.step = stepOf(strings.Fields(all[rt.Intn(len(all))]))
+	}
+	return c
+}
+
 func TestC47(t *testing.T) {
 	run := mon.Start(t, "C47", "fault_enumeration",
 		"random points of {9 client kinds (single, auto-detected single, standalone with redirect, standalone with replicas, cluster, cluster ReplicaOnly, cluster SendToReplicas, sentinel, sentinel ReplicaOnly)} x {RESP3, no-HELLO, no-tracking server} x "+
 			"{no auth, password, user+password, user name only (user without password), AuthCredentialsFn x3 (password, user+password, user name only)} x {default user with, without password} x ClientName x SelectDB x {DisableCache, default tracking, 4 ClientTrackingOptions} x NO-TOUCH x NO-EVICT x {default, custom, disabled SETINFO} x AlwaysRESP2 x "+
-			"{no fault, one setup step answered with an error on every connection or on every connection but the first}; five user commands per case over the pipelined, dedicated and streaming connections; a case = the whole tuple plus its outcome")
+			"{no fault, one setup step answered with an error on every connection or on every connection but the first}, plus a quarter as many cases again in which one setup step (half of the time HELLO) is answered with a transient LOADING / BUSY / MASTERDOWN error on its 1st, 2nd or 3rd try only; five user commands per case over the pipelined, dedicated and streaming connections; a case = the whole tuple plus its outcome")
 	defer run.Finish()
 	run.Assume("fakeredis keeps a per-connection session record (user, name, db, tracking, readonly, no-touch, no-evict, lib info, protocol) that reflects exactly the setup commands it answered OK")
 	rueidis.VerifSetQueueType("flowbuffer")
@@ -949,10 +1031,15 @@ func TestC47(t *testing.T) {
 	n := run.N(1200, 20000)
 	base := run.Rand("cases").Int63()
 	baseX := run.Rand("credentials").Int63()
-	for i := 0; i < n; i++ {
+	nt := n / 4 // the transient mode: cases of their own behind the others, from a stream of their own
+	baseT := run.Rand("transient").Int63()
+	for i := 0; i < n+nt; i++ {
 		r := rand.New(rand.NewSource(base + int64(i)*6151))
 		rx := rand.New(rand.NewSource(baseX + int64(i)*7919))
 		w := &world{run: run, id: i, c: genCfg(r, rx, i)}
+		if i >= n {
+			w.c = genTransient(w.c, rand.New(rand.NewSource(baseT+int64(i)*104729)))
+		}
 		dl, stacks := drv.Bubble(t, w.body)
 		if dl != "" {
 			run.Violation("hang-or-leak", w.c.kind+"|server="+w.c.server+"|step="+w.c.step, w.wit(map[string]any{"synctest": dl, "rueidis_frames": drv.RueidisFrames(stacks), "stacks": drv.Tail(stacks, 9000)}))
@@ -967,5 +1054,6 @@ func TestC47(t *testing.T) {
 	}
 	run.Require("sessions_inspected_at_first_user_command", "setup_sequences_checked", "sentinel_sessions_checked", "errnocache_refusals", "refused_after_failed_step", "all_calls_served",
 		"tolerated_failures_survived", "injected_step_failures", "readonly_sessions", "resp2_sessions", "tolerated_step_errors_seen",
-		"resp2_setup_attempts_with_username_only_credentials", "resp2_setup_attempts_with_username_only_credentials_and_open_default_user", "resp3_setup_attempts_with_username_only_credentials")
+		"resp2_setup_attempts_with_username_only_credentials", "resp2_setup_attempts_with_username_only_credentials_and_open_default_user", "resp3_setup_attempts_with_username_only_credentials",
+		"transient_errors_on_hello3_where_a_resp2_session_would_work", "connections_refused_after_transient_step_error")
 }
